@@ -84,7 +84,7 @@ class Mnemonic(object):
         if validate:
             self.to_entropy(words)
         mnemonic = bytes(words, 'utf8')
-        password = bytes(password, 'utf8')
+        password = bytes(normalize_string(password), 'utf8')
         return hashlib.pbkdf2_hmac(hash_name='sha512', password=mnemonic, salt=b'mnemonic' + password,
                                    iterations=2048)
 
